@@ -165,6 +165,13 @@ def usum (max : Nat) (l : List Nat) : M Nat := l.foldlM (fun acc x => uadd max a
 def policyErr (filterErr : String → Bool) (tag : String) : M Unit :=
   if filterErr tag then fail tag else pure ()
 
+/-- `if c { policy_err!(self, tag, ..) }` as one step (emitted for units translated with `compact_guards`) -/
+def policyErrIf (filterErr : String → Bool) (tag : String) (c : Bool) : M Unit :=
+  if c then policyErr filterErr tag else pure ()
+
+/-- `if c { return Err(e) }` as one step (`transaction_format_err!` under `compact_guards`) -/
+def failIf (tag : String) (c : Bool) : M Unit := if c then fail tag else pure ()
+
 /-! ### round 8: bitwise operators, byte strings, slices -/
 
 /-- `!x` on an unsigned type with maximum `max` (all bits flipped) -/
